@@ -136,7 +136,8 @@ def specString (dq : Bool) (q : UInt8) : Nat → Bytes → Option (Bytes × Nat)
         else if e == 85 then hexEsc 8
         else if e == 120 then hexEsc 2
         else
-          let b : UInt8 := if e == 114 then 13 else if e == 110 then 10 else if e == 116 then 9 else e
+          let b : UInt8 := if e == 114 then 13 else if e == 110 then 10 else if e == 116 then 9
+            else if e == 97 then 7 else if e == 98 then 8 else if e == 102 then 12 else if e == 118 then 11 else e
           match specString dq q fuel rest with
           | some (v, m) => some (b :: v, m + 2)
           | none => none
